@@ -26,7 +26,7 @@ property_meta(
                 "announced duration; post-conditions: memmap fits (no raise), ns == floor(bytes/(nc*itemsize)), prefix values, rl == ns/fs.")
 
 
-def sym_reader(it, cls, suffix, itemsize):
+def sym_reader(it, cls, suffix, itemsize, online=False):
     fs_ = fsmodel.GhostFS()
     it.session.ghost_fs = fs_
     nbytes, nc = z3.Ints("nbytes nc")
@@ -38,7 +38,13 @@ def sym_reader(it, cls, suffix, itemsize):
     meta = {"typeThis": "imec", "imSampRate": SV(rate), "nSavedChans": SV(nc), "fileTimeSecs": SV(ftsec),
             "fileSizeBytes": SV(z3.Int("fileSizeBytes"))}
     dtype = np.dtype("int16") if itemsize == 2 else np.dtype("float32")
-    obj = SObj(cls, file_bin=path, nbytes=SV(nbytes), dtype=dtype, meta=meta, ignore_warnings=True, ch_file=None, _raw=None)
+    cached = SV(nbytes)
+    if online:
+        # the size cached by __init__ may be stale: the recording has grown since (file sizes only grow while acquiring)
+        n0 = z3.Int("nbytes_at_init")
+        it.ctx.assume(z3.And(n0 >= 0, n0 <= nbytes))
+        cached = SV(n0)
+    obj = SObj(cls, file_bin=path, nbytes=cached, dtype=dtype, meta=meta, ignore_warnings=True, ch_file=None, _raw=None)
     return obj, nbytes, nc, rate, ftsec
 
 
@@ -134,7 +140,7 @@ def h_online(H):
         S = H.session(f"online{itemsize}")
 
         def body(it, itemsize=itemsize):
-            obj, nbytes, nc, rate, ftsec = sym_reader(it, spikeglx.OnlineReader, ".bin", itemsize)
+            obj, nbytes, nc, rate, ftsec = sym_reader(it, spikeglx.OnlineReader, ".bin", itemsize, online=True)
             H.input(nbytes=nbytes, nc=nc, fs=rate, fileTimeSecs=ftsec)
             ns = term(it.getattr(obj, "ns"))
             frame = nc * itemsize
